@@ -402,15 +402,16 @@ pub fn run(tier: Tier) -> i32 {
         }
         if tier.thorough() {
             // bound 2: every pair of cuts (for compressed inputs: first cut anywhere, second cut anywhere later)
-            let step = 1;
-            let mut a = 1;
-            while a < len {
-                let mut b = a + 1;
-                while b < len {
+            // every run on a BGZF input spawns the dependency's reader and inflater threads (about 1 ms of
+            // system time each), and everything after format detection is the dependency's reader: all
+            // pairs are run for plain inputs and for the single-block BGZF inputs with one inflater
+            // thread; for the other BGZF inputs the first cut ranges over the detection-relevant prefix
+            let full_pairs = inp.threads == 1 && (inp.first_block == 0 || inp.name.contains("single"));
+            let a_max = if full_pairs { len } else { (inp.first_block + 32).min(len) };
+            for a in 1..a_max {
+                for b in a + 1..len {
                     jobs.push((i, Schedule::cuts(&[a, b])));
-                    b += step;
                 }
-                a += step;
             }
         } else {
             // a slice of bound 2: first cut in the first 8 bytes x every second cut
@@ -454,7 +455,7 @@ pub fn run(tier: Tier) -> i32 {
         note: format!(
             "{} inputs; deviation bound completed: {}; {} fault offsets",
             inputs.len(),
-            if tier.thorough() { "2 (every pair of cuts)" } else { "1 (every single cut) + pairs with the first cut in the first 8 bytes" },
+            if tier.thorough() { "2 (every pair of cuts; all pairs for plain inputs and for the single-block BGZF inputs read with one inflater thread; for the other BGZF inputs the first cut ranges over the first block + 32 bytes)" } else { "1 (every single cut) + pairs with the first cut in the first 8 bytes" },
             n_faults
         ),
         exhaustive: true,
